@@ -89,11 +89,55 @@ def opt(args, name):
     return args[args.index(name) + 1] if name in args else None
 
 
+def simulated_failure(mode, args):
+    """$XMLSEC1_STANDIN_FAIL names a JSON file {"op": "--verify" | ... | "any", "how": ..., "after": n, "count": k}: the n+1-th and
+    later invocations of that operation fail the way `how` says (the bounded check tool_failure uses this to walk failure modes
+    through histories).  Returns an exit code, or None to carry on normally."""
+    ctl = os.environ.get('XMLSEC1_STANDIN_FAIL')
+    if not ctl or not os.path.exists(ctl):
+        return None
+    with open(ctl) as f:
+        d = json.load(f)
+    if d.get('op') not in ('any', mode):
+        return None
+    d['count'] = d.get('count', 0) + 1
+    with open(ctl, 'w') as f:
+        json.dump(d, f)
+    if d['count'] <= d.get('after', 0):
+        return None
+    how = d.get('how')
+    out = opt(args, '--output')
+    if how == 'exit1':                  # an ordinary error: message on stderr, nothing written
+        sys.stderr.write('Error: simulated failure\n')
+        return 1
+    if how == 'killed':                 # the process dies from a signal (negative return code for the caller)
+        import signal
+        sys.stderr.flush()
+        os.kill(os.getpid(), signal.SIGKILL)
+    if how == 'silent':                 # exit code 0, but nothing on stderr and nothing written
+        return 0
+    if how == 'garbage':                # error exit with unrelated bytes in the output file and on stderr
+        if out:
+            open(out, 'wb').write(b'\x00\xff not xml')
+        sys.stderr.write('\x07 garbage\n')
+        return 1
+    if how == 'truncated':              # error exit after half of the document was written
+        if out and os.path.exists(args[-1]):
+            data = open(args[-1], 'rb').read()
+            open(out, 'wb').write(data[:len(data) // 2])
+        sys.stderr.write('Error: simulated failure after partial output\n')
+        return 1
+    return None
+
+
 def main(argv):
     args = argv[1:]
     if not args:
         return 1
     mode = args[0]
+    rc = simulated_failure(mode, args)
+    if rc is not None:
+        return rc
     if mode == '--version':
         sys.stdout.write('xmlsec1 1.2.33 (standin)\n')
         return 0
